@@ -38,7 +38,7 @@ def register(reg):
     BODY = f'spec_with_ast(spec_fresh({OTOP}), uf_defined_by({OTOP}.ast, self))'
     contract(
         reg, f'{Sx}:Optional._parse', ALL, {'self': 'opaque:Model', 'ctx': 'Ctx'}, ret='Val',
-        requires=['len(ctx.states.state_stack) >= 1', f'spec_same_text({TOP}, {TOP})'],
+        requires=['len(ctx.states.state_stack) >= 1'],
         ensures=[
             ('property', f'implies(out_ok(self.exp, {BODY}), '
                          f'ctx.states.state_stack == old_ctx.states.state_stack[:-1] + [spec_merged({OTOP}, out_frame(self.exp, {BODY}))] '
@@ -54,7 +54,7 @@ def register(reg):
     # ------------------------------------------------------------------ transparent / lookahead nodes
     OSTK = 'old_ctx.states.state_stack'
     STK = 'ctx.states.state_stack'
-    REQ = ['len(ctx.states.state_stack) >= 1', f'spec_same_text({TOP}, {TOP})']
+    REQ = ['len(ctx.states.state_stack) >= 1']
     FRESH = f'spec_fresh({OTOP})'
 
     def same_as(e, frame=OTOP):
@@ -82,7 +82,7 @@ def register(reg):
     contract(
         reg, f'{Sx}:SkipGroup._parse', ALL, {'self': 'opaque:Model', 'ctx': 'Ctx'}, ret='Val', requires=REQ,
         ensures=[('property', f'out_ok(self.exp, {FRESH})'),
-                 ('property', f'{STK} == {OSTK}[:-1] + [spec_at({OTOP}, out_frame(self.exp, {FRESH}).cursor.pos)]'),
+                 ('property', f'{STK} == {OSTK}[:-1] + [spec_goto({OTOP}, out_frame(self.exp, {FRESH}).cursor.pos)]'),
                  ('property', 'result is None')],
         raises={'FailedParse': [f'not out_ok(self.exp, {FRESH})', SAME]}, propagates=[GROW])
 
